@@ -21,10 +21,27 @@ pub enum Prior {
     MetaGarbage { variant: usize },
     IndexMissing,
     IndexEmptyDir,
+    /// Written by another release: meta.json names another version (a semver neighbour of the current one)
+    /// and the index directory has the layout that release used (another tokenizer, other field names,
+    /// files that are not an index at all, or the current layout holding other documents).
+    ForeignRelease { version: String, layout: Layout, current_hash: bool },
     /// Any index state combined with any metadata state (the pair
     /// other-documents + fully current metadata is excluded: that metadata
     /// would legitimately vouch for the index).
     Combo { index: IndexState, meta: MetaState },
+}
+
+#[derive(Clone, Debug, Serialize, Deserialize, PartialEq)]
+#[serde(rename_all = "snake_case")]
+pub enum Layout {
+    /// `name` indexed with the default word tokenizer instead of the prefix n-grams
+    OtherTokenizer,
+    /// payload and name fields called differently
+    OtherFields,
+    /// files that are not a tantivy index
+    NotAnIndex,
+    /// today's layout, other documents
+    SameLayoutOtherDocuments,
 }
 
 #[derive(Clone, Debug, Serialize, Deserialize, PartialEq)]
@@ -74,6 +91,8 @@ struct Reference {
     /// child process is spawned (an open IndexWriter's lock file descriptor
     /// must never be inherited by a concurrently forked child).
     other_index: PathBuf,
+    foreign_tokenizer: PathBuf,
+    foreign_fields: PathBuf,
     n_docs: usize,
 }
 
@@ -112,7 +131,11 @@ fn reference() -> &'static Reference {
         let meta: Value = serde_json::from_str(&std::fs::read_to_string(template.join("facts/meta.json")).expect("meta.json after a complete run")).unwrap();
         let other_index = work.join("other-index");
         seed_other_documents(&other_index);
-        Reference { work, qfile, queries: qs.len(), answers, meta, template, other_index, n_docs: f.all.len() }
+        let foreign_tokenizer = work.join("foreign-tokenizer");
+        seed_foreign_layout(&foreign_tokenizer, false);
+        let foreign_fields = work.join("foreign-fields");
+        seed_foreign_layout(&foreign_fields, true);
+        Reference { work, qfile, queries: qs.len(), answers, meta, template, other_index, foreign_tokenizer, foreign_fields, n_docs: f.all.len() }
     })
 }
 
@@ -160,6 +183,38 @@ fn seed_other_documents(index_dir: &Path) {
         w.add_document(doc).unwrap();
     }
     w.commit().unwrap();
+}
+
+/// An index as another release might have laid it out: the word tokenizer on `name`, or other field names.
+fn seed_foreign_layout(index_dir: &Path, other_fields: bool) {
+    use tantivy::schema::{Schema, STORED, TEXT};
+    let _ = std::fs::remove_dir_all(index_dir);
+    std::fs::create_dir_all(index_dir).unwrap();
+    let mut sb = Schema::builder();
+    let data = sb.add_bytes_field(if other_fields { "payload" } else { "data" }, STORED);
+    let name = sb.add_text_field(if other_fields { "title" } else { "name" }, TEXT | STORED);
+    let index = tantivy::Index::create_in_dir(index_dir, sb.build()).unwrap();
+    let mut w = index.writer_with_num_threads(1, 15_000_000).unwrap();
+    for f in facts().all.iter().take(300) {
+        let c = anything::Constant { source: None, tokens: f.tokens.iter().map(|t| t.as_str().into()).collect(), description: "DOCUMENT OF ANOTHER RELEASE".into(), value: anything::Rational::new(7, 1), unit: anything::Compound::empty() };
+        let mut doc = tantivy::Document::default();
+        doc.add_bytes(data, serde_cbor::to_vec(&c).unwrap());
+        doc.add_text(name, &f.tokens.join(" "));
+        w.add_document(doc).unwrap();
+    }
+    w.commit().unwrap();
+}
+
+/// Version strings next to the current one.
+pub fn neighbour_versions(current: &str) -> Vec<String> {
+    let parts: Vec<u64> = current.split('.').filter_map(|p| p.parse().ok()).collect();
+    let mut v = vec![format!("{}-rc1", current), format!("v{}", current), format!("{} ", current), format!("{}.0", current), current.to_uppercase() + "x", "".to_string()];
+    if parts.len() == 3 {
+        let (a, b, c) = (parts[0], parts[1], parts[2]);
+        v.extend([format!("{}.{}.{}", a, b, c + 1), format!("{}.{}.{}", a, b, c.saturating_sub(1)), format!("{}.{}.{}", a, b, c * 10), format!("{}.{}.{}", a, b + 1, c), format!("{}.{}.{}", a + 1, b, c), format!("{}.{}", a, b), format!("{}.{}.0{}", a, b, c)]);
+    }
+    v.retain(|x| x != current);
+    v
 }
 
 fn prepare(dir: &Path, prior: &Prior) {
@@ -223,6 +278,27 @@ fn prepare(dir: &Path, prior: &Prior) {
             copy_dir(&r.template, dir);
             let _ = std::fs::remove_dir_all(facts_dir.join("index"));
             std::fs::create_dir_all(facts_dir.join("index")).unwrap();
+        }
+        Prior::ForeignRelease { version, layout, current_hash } => {
+            copy_dir(&r.template, dir);
+            let idx = facts_dir.join("index");
+            let _ = std::fs::remove_dir_all(&idx);
+            match layout {
+                Layout::OtherTokenizer => copy_dir(&r.foreign_tokenizer, &idx),
+                Layout::OtherFields => copy_dir(&r.foreign_fields, &idx),
+                Layout::SameLayoutOtherDocuments => copy_dir(&r.other_index, &idx),
+                Layout::NotAnIndex => {
+                    std::fs::create_dir_all(&idx).unwrap();
+                    std::fs::write(idx.join("meta.json"), b"{\"this is\": \"not an index\"}").unwrap();
+                    std::fs::write(idx.join("0000.store"), vec![0u8; 4096]).unwrap();
+                }
+            }
+            set_meta(&|v| {
+                v["version"] = json!(version);
+                if !*current_hash {
+                    v["database_hash"] = json!("00112233445566778899aabbccddeeff");
+                }
+            });
         }
         Prior::Combo { index, meta: m } => {
             copy_dir(&r.template, dir);
@@ -393,6 +469,7 @@ fn exec(h: &History, id: u64) -> CaseReport {
         Prior::MetaGarbage { .. } => "prior:meta-garbage",
         Prior::IndexMissing => "prior:index-missing",
         Prior::IndexEmptyDir => "prior:index-empty-dir",
+        Prior::ForeignRelease { .. } => "prior:foreign-release",
         Prior::Combo { index: IndexState::OtherDocuments, .. } => "prior:combo-other-documents",
         Prior::Combo { index: IndexState::Complete, .. } => "prior:combo-complete-index",
         Prior::Combo { .. } => "prior:combo-missing-or-empty-index",
@@ -440,7 +517,7 @@ fn point(h: u64, n_docs: usize) -> String {
 }
 
 pub fn run_check(ctx: &Ctx) {
-    ctx.set_rule("fault histories = prior directory state (absent, complete, other version with current/stale hash, other data over an index holding other documents, meta.json missing / truncated / garbage, index directory missing / empty) x crash point (hooks: index opened, after delete_all_documents, after the k-th add_document, before/after commit, after reload, between creating and writing meta.json, after writing it) x 1-3 follow-up starts (each crashing at another point or completing), every start a child process calling Db::open under a private XDG_DATA_HOME and aborting at the selected point; oracle: every completing start answers the query set (every unambiguous typable fact phrase plus not-found probes) exactly like a fresh in-memory database and leaves meta.json = {current version, current hash}; after a crash that leaves meta.json claiming `current`, the next start (which will not rebuild) must still answer correctly; non-trivial = a crash between the first document and the metadata write followed by a completing start; distinct by history");
+    ctx.set_rule("fault histories = prior directory state (absent, complete, other version with current/stale hash, written by a neighbouring release (13 version strings next to the current one x index laid out with another tokenizer / other field names / not an index / other documents), other data over an index holding other documents, meta.json missing / truncated / garbage, index directory missing / empty) x crash point (hooks: index opened, after delete_all_documents, after the k-th add_document, before/after commit, after reload, between creating and writing meta.json, after writing it) x 1-3 follow-up starts (each crashing at another point or completing), every start a child process calling Db::open under a private XDG_DATA_HOME and aborting at the selected point; oracle: every completing start answers the query set (every unambiguous typable fact phrase plus not-found probes) exactly like a fresh in-memory database and leaves meta.json = {current version, current hash}; after a crash that leaves meta.json claiming `current`, the next start (which will not rebuild) must still answer correctly; non-trivial = a crash between the first document and the metadata write followed by a completing start; distinct by history");
     ctx.assume("a crash is a process abort at a hook point (files already written stay visible); torn writes inside a single write call are modelled only through truncated/garbage meta.json prior states");
     let r = reference();
     ctx.put("query_set", json!(r.queries));
@@ -467,6 +544,21 @@ pub fn run_check(ctx: &Ctx) {
             for pt in POINTS {
                 let name = if pt == "add-document" { format!("add-document@{}", 1 + mix(ctx.seed, 77 + ci as u64) % r.n_docs as u64) } else { pt.to_string() };
                 all.push(History { prior: p.clone(), starts: vec![Some(name), None] });
+            }
+        }
+    }
+    // written by another release: every neighbouring version string x every foreign layout
+    let current_version = r.meta["version"].as_str().unwrap_or("").to_string();
+    let versions = neighbour_versions(&current_version);
+    ctx.put("neighbour_versions", json!(versions));
+    for (vi, version) in versions.iter().enumerate() {
+        for (li, layout) in [Layout::OtherTokenizer, Layout::OtherFields, Layout::NotAnIndex, Layout::SameLayoutOtherDocuments].into_iter().enumerate() {
+            let prior = Prior::ForeignRelease { version: version.clone(), layout, current_hash: (vi + li) % 3 == 0 };
+            all.push(History { prior: prior.clone(), starts: vec![None, None] });
+            if ctx.tier == crate::runner::Tier::Thorough || (vi + li) % 4 == 0 {
+                let pt = POINTS[(vi * 4 + li + ctx.seed as usize) % POINTS.len()];
+                let name = if pt == "add-document" { format!("add-document@{}", 1 + mix(ctx.seed, (vi * 4 + li) as u64) % r.n_docs as u64) } else { pt.to_string() };
+                all.push(History { prior, starts: vec![Some(name), None] });
             }
         }
     }
